@@ -32,6 +32,7 @@ package database
 // the database (part files published or renamed by pre-commit hooks) is undone by the rollback hooks, and an error is
 // reported only when the database transaction did not commit.
 //@ func (*TxController).Rollback
+//@ property C01 C03
 //@ mode effects
 //@ assigns t.finalized
 //@ ensures[C03:rollback-releases-sql-tx] t.ownsFinalization ==> called(t.tx.Rollback)
@@ -43,6 +44,7 @@ package database
 // failing database commit rolls back (which runs the undo hooks); after-commit hooks run only once the database has
 // committed; and an error is reported only when the database transaction did NOT commit.
 //@ func (*TxController).Commit
+//@ property C01 C03
 //@ mode effects
 //@ effect[C03:no-commit-after-failed-precommit-hook] every each(t.onPreCommit)(_) -> ($e) if $e != nil forbids after t.tx.Commit()
 //@ effect[C03:failed-precommit-hook-rolls-back] every each(t.onPreCommit)(_) -> ($e) if $e != nil needs after t.Rollback(_)
@@ -55,6 +57,7 @@ package database
 // WithTx: the body's error (or the rollback's) is reported and the transaction is rolled back, never committed; without
 // an error the result is the commit's.
 //@ func WithTx
+//@ property C01 C03
 //@ mode effects
 //@ ensures[C03:body-error-rolls-back] called(fn) && result_of(fn, 0) != nil ==> called(tx.Rollback) && !called(tx.Commit)
 //@ ensures[C03:body-error-reported] called(fn) && result_of(fn, 0) != nil ==> err != nil
